@@ -198,3 +198,37 @@ Proof.
   - apply (bfactory_tiles S_UDP ex_packet); [exact ex_packet_canon|reflexivity|]. rewrite <- E. vm_compute. reflexivity.
   - injection E as <- <-. split; reflexivity.
 Qed.
+
+(* ---- a no-compression rule reproduces any packet a stack parser accepts (bit level; used by props/C07.v) ---- *)
+Lemma packet_no_compression ct s b fs pl r d : factory s b = Ok (fs, pl) -> rule_nature r = NoCompression -> rule_fds r = [] ->
+  exists c, compress (mkpdesc Up fs pl) r d = Ok c /\ decompress ct c r d = Ok b.
+Proof.
+  intros H Hn Hf. exists (rule_id r ++ b). split.
+  - apply compress_layout. unfold layout. rewrite Hn. cbn [pd_fields pd_payload]. now rewrite (packet_tiles s b fs pl H).
+  - apply decompress_nocompression. exact Hf.
+Qed.
+
+(* ---- small corollaries used verbatim by the property files (props/C02.v, props/C15.v) ------------------- *)
+Lemma compress_no_compression pd r d : rule_nature r = NoCompression ->
+  compress pd r d = Ok (rule_id r ++ concat (map f_val (pd_fields pd)) ++ pd_payload pd).
+Proof. intros H. apply compress_layout. unfold layout. rewrite H. reflexivity. Qed.
+
+Lemma bcompress_layout pd r d s : canon_pdesc pd -> canon_rule r ->
+  layout (abs_pdesc abs pd) (abs_rule abs r) d = Some s ->
+  exists x, bcompress pd r d = Ok x /\ canon x /\ abs x = s.
+Proof. intros Hp Hr Hl. apply (bcompress_refines pd r d s Hp Hr). apply compress_layout. exact Hl. Qed.
+
+Lemma cm_compress_nomatch_first parse rules packet d fs pl :
+  parse packet = Ok (fs, pl) -> forallb rule_typed rules = true ->
+  filter (spec_rule_applies (mkpdesc d fs pl)) rules = [] ->
+  cm_compress parse rules packet d FIRST = Exc RuleDescriptorMatchError.
+Proof. intros H1 H2 H3. rewrite (cm_compress_first parse rules packet d fs pl H1 H2). cbv zeta. rewrite H3. reflexivity. Qed.
+
+Lemma cm_compress_nomatch_best parse rules packet d fs pl :
+  parse packet = Ok (fs, pl) -> forallb rule_typed rules = true ->
+  filter (spec_rule_applies (mkpdesc d fs pl)) rules = [] ->
+  cm_compress parse rules packet d BEST = Exc RuleDescriptorMatchError.
+Proof.
+  intros H1 H2 H3. pose proof (cm_compress_best parse rules packet d fs pl H1 H2) as H. cbv zeta in H.
+  rewrite H3 in H. apply H. intros r [].
+Qed.
